@@ -8,7 +8,7 @@ PROP_FILES = ["props/C08.v"]
 TRANSLATORS = ["tr_lexer.py", "tr_parser_tables.py", "tr_generator_tables.py", "tr_ast.py"]
 TRUSTED = ["gcc (the system C compiler) is the oracle of this property and is outside any model: compiler equivalence is decided by executing gcc -S on original and regenerated text (tested, not proved)",
            "what is proved concerns the generator model: coordinate independence for all ASTs, the mirrored precedence tables, kernel-computed regenerations of characteristic programs"]
-ASSUMPTIONS = ["equality of gcc -O0 -S (and -O1 -S in the thorough tier) output with .file/.ident lines removed is taken as `compiles to exactly the same code`"]
+ASSUMPTIONS = ["equality of gcc -O0 -S (and -O1 -S in the thorough tier) output with .file/.ident lines and the layout-dependent `nop` padding of -O0 removed is taken as `compiles to exactly the same code`"]
 
 
 def asm(text, tmp, opt):
@@ -17,7 +17,9 @@ def asm(text, tmp, opt):
     p = subprocess.run(["gcc", "-std=gnu11", opt, "-S", "-w", "-o", "-", src], capture_output=True, text=True, timeout=120)
     if p.returncode != 0:
         return None, p.stderr[:300]
-    return "\n".join(l for l in p.stdout.splitlines() if not re.match(r"\s*\.(file|ident)\b", l)), ""
+    # `nop` at -O0 marks statement / line boundaries of the SOURCE LAYOUT (e.g. a declaration and a goto on one line vs on two):
+    # it is no code of the program, and the regenerated text has a different layout by design
+    return "\n".join(l for l in p.stdout.splitlines() if not re.match(r"\s*(\.(file|ident)\b|nop\s*$)", l)), ""
 
 
 def oracle(text, tmp, opts, filename="f.c"):
